@@ -9,6 +9,9 @@
 //!   J compiledtr <entry> <policy> <internal key id | UNSPENDABLE> <leaf;leaf;…|-> <annotations>
 //!   J reparse    <target> <policy> <printed output> <verdict>      (verdict computed here)
 //!   J nopanic compile <entry> <policy> <digest of the panic message> PANIC
+//!   J compiles   <segwitv0|tap> <policy> <Ok|Err:kind|PANIC>        (policies with <= 4 leaves: the Lean side
+//!                                                                   decides whether the policy is in the class that MUST compile)
+//!   J trlift     <entry> <policy> <unspendable key id|-> <lift of the compiled tr descriptor, internal key included>
 //!   C sane       <ctx> <ast>                                       (model of validate(Ctx::SANE))
 //!
 //! Policies are built over the table keys (`full_key(i)`, `xonly_key(200+i)`), table hashes
@@ -25,7 +28,7 @@ use miniscript::bitcoin::secp256k1::XOnlyPublicKey;
 use miniscript::bitcoin::PublicKey;
 use miniscript::descriptor::ShInner;
 use miniscript::policy::concrete::DescriptorCtx;
-use miniscript::policy::Concrete;
+use miniscript::policy::{Concrete, Liftable, Semantic};
 use miniscript::{
     hash256, AbsLockTime, BareCtx, Descriptor, Legacy, Miniscript, RelLockTime, ScriptContext,
     Segwitv0, Tap, Terminal, Threshold,
@@ -135,6 +138,27 @@ fn from_ms<Pk: KeyOf + KeyId, Ctx: ScriptContext>(ms: &Miniscript<Pk, Ctx>, ann:
     })
 }
 
+/// canonical wire form of the library's lift of a descriptor over the table atoms
+fn sem_wire(p: &Semantic<PublicKey>) -> Option<String> {
+    Some(match p {
+        Semantic::Unsatisfiable => "UNSATISFIABLE".into(),
+        Semantic::Trivial => "TRIVIAL".into(),
+        Semantic::Key(k) => format!("pk({})", msops::key_id_full(k)?),
+        Semantic::After(t) => format!("after({})", t.to_consensus_u32()),
+        Semantic::Older(t) => format!("older({})", t.to_consensus_u32()),
+        Semantic::Sha256(h) => format!("sha256({})", hash_id(HK::Sha256, h.as_ref())?),
+        Semantic::Hash256(h) => format!("hash256({})", hash_id(HK::Hash256, h.as_ref())?),
+        Semantic::Ripemd160(h) => format!("ripemd160({})", hash_id(HK::Ripemd160, h.as_ref())?),
+        Semantic::Hash160(h) => format!("hash160({})", hash_id(HK::Hash160, h.as_ref())?),
+        Semantic::Thresh(t) => {
+            let mut s = format!("thresh({}", t.k());
+            for x in t.iter() { s.push(','); s.push_str(&sem_wire(x)?); }
+            s.push(')');
+            s
+        }
+    })
+}
+
 fn guard<T>(f: impl FnOnce() -> T) -> Option<T> { catch_unwind(AssertUnwindSafe(f)).ok() }
 
 /// like `guard`, but keeps a one-token digest of the panic message
@@ -172,6 +196,9 @@ struct Run<'a> {
     programs: u64,
     slowest_ms: u128,
     slowest: String,
+    /// only the taproot entry points (many-leaf policies: one miniscript for the whole policy
+    /// takes seconds to compile and is not what these cases are about)
+    tr_only: bool,
 }
 
 impl<'a> Run<'a> {
@@ -247,6 +274,15 @@ impl<'a> Run<'a> {
         let lw = if leaves.is_empty() { "-".to_string() } else { leaves.join(";") };
         let aw = if anns.is_empty() { "-".to_string() } else { anns.join(";;") };
         self.out.line(&format!("J compiledtr {} {} {} {} {}", entry, pw, ik, lw, aw), "ok");
+        // second route to the same claim: the library's own lift of the descriptor (key path
+        // included), judged against the policy's truth table by the Lean specification
+        let lifted = match guard(|| desc.lift()) {
+            None => "ERR:PANIC".to_string(),
+            Some(Err(e)) => format!("ERR:{}", err_kind2(&e)),
+            Some(Ok(q)) => sem_wire(&q).unwrap_or_else(|| "ERR:UNMAPPABLE".into()),
+        };
+        let unsp = if ik == "UNSPENDABLE" { UNSPENDABLE.to_string() } else { "-".to_string() };
+        self.out.line(&format!("J trlift {} {} {} {}", entry, pw, unsp, lifted), "ok");
         // Kraft equality: the leaf depths describe a full binary tree (no dropped/duplicated slot)
         let kraft: u128 = depths.iter().map(|d| 1u128 << (64 - (*d as u32).min(64))).sum();
         let kraft_ok = depths.is_empty() || kraft == 1u128 << 64;
@@ -294,7 +330,12 @@ impl<'a> Run<'a> {
         let pw = ca_wire(c);
         let pol: Concrete<Pk> = match build(c) { Some(p) => p, None => { self.out.count("policy not constructible"); return; } };
         let what = format!("ms-{}", ctx.name());
-        match self.timed(&what, &pw, || pol.compile::<Ctx>()) {
+        let r = self.timed(&what, &pw, || pol.compile::<Ctx>());
+        if matches!(ctx, CtxK::Segwitv0 | CtxK::Tap) && n_leaves(c) <= 4 {
+            let outcome = match &r { None => "PANIC".to_string(), Some(Err(e)) => format!("Err:{}", err_kind2(e)), Some(Ok(_)) => "Ok".to_string() };
+            self.out.line(&format!("J compiles {} {} {}", ctx.name(), pw, outcome), "ok");
+        }
+        match r {
             None => {}
             Some(Err(e)) => self.out.count(&format!("err {} {}", what, err_kind2(&e))),
             Some(Ok(ms)) => {
@@ -306,11 +347,13 @@ impl<'a> Run<'a> {
 
     fn all_targets(&mut self, c: &CA, light: bool) {
         // plain miniscripts in the four contexts
+        if !self.tr_only {
         self.compile_ms::<PublicKey, Segwitv0>(CtxK::Segwitv0, c, &|s| Miniscript::from_str(s));
         self.compile_ms::<XOnlyPublicKey, Tap>(CtxK::Tap, &remap(c, 200), &|s| Miniscript::from_str(s));
         if !light {
             self.compile_ms::<PublicKey, BareCtx>(CtxK::Bare, c, &|s| Miniscript::from_str(s));
             self.compile_ms::<PublicKey, Legacy>(CtxK::Legacy, c, &|s| Miniscript::from_str(s));
+        }
         }
         let pw = ca_wire(c);
         let pol: Concrete<PublicKey> = match build(c) { Some(p) => p, None => return };
@@ -326,6 +369,7 @@ impl<'a> Run<'a> {
         ];
         for (kind, mk) in dctxs.iter() {
             if light && !matches!(*kind, "shwsh" | "tr-unsp") { continue; }
+            if self.tr_only && !kind.starts_with("tr-") { continue; }
             let what = format!("desc-{}", kind);
             // the type parameter of compile_to_descriptor is a phantom (the descriptor kind fixes the context)
             match self.timed(&what, &pw, || pol.compile_to_descriptor::<Segwitv0>(mk())) {
@@ -349,7 +393,7 @@ impl<'a> Run<'a> {
                 Some(Ok(d)) => { self.out.count(&format!("compiled {}", what)); self.judge_tr(&what, &pw, &d); }
             }
             for max_leaves in [1usize, 4, 1024] {
-                if light && max_leaves != 1024 { continue; }
+                if (light || self.tr_only) && max_leaves != 1024 { continue; }
                 let what = format!("trnative{}-{}", max_leaves, un);
                 match self.timed(&what, &pw, || pol.compile_tr_native(uk, max_leaves)) {
                     None => {}
@@ -501,11 +545,11 @@ pub fn run(out: &mut Out, thorough: bool, seed: u64) {
         for t in nodes { with_ctx!(ctx, sane_line(out, ctx, &t.node)); }
     }
 
-    let mut run = Run { out, programs: 0, slowest_ms: 0, slowest: String::new() };
+    let mut run = Run { out, programs: 0, slowest_ms: 0, slowest: String::new(), tr_only: false };
     let mut n_pol = 0u64;
     let mut seen: BTreeSet<String> = BTreeSet::new();
     let t_start = Instant::now();
-    let budget_s: u64 = if thorough { 600 } else { 45 };
+    let budget_s: u64 = if thorough { 900 } else { 150 };   // a guard against pathological slowness, not a target
 
     // hand-written corpus: the documented examples and the special cases of the compiler
     let key = |i: u32| CA::Leaf(A::Key(i));
@@ -529,6 +573,7 @@ pub fn run(out: &mut Out, thorough: bool, seed: u64) {
     for c in &corpus {
         if seen.insert(ca_wire(c)) { n_pol += 1; run.out.count("policy corpus"); run.all_targets(c, false); }
     }
+    run.out.note("t_after policy corpus", t_start.elapsed().as_millis().to_string());
 
     // near-twin siblings: two branches at EQUAL odds that differ in one leaf only, the two leaves
     // being "close" (same lock kind in different units, same consensus-relevant bits, same hash
@@ -563,6 +608,153 @@ pub fn run(out: &mut Out, thorough: bool, seed: u64) {
     for c in &twin_pols {
         if seen.insert(ca_wire(c)) { n_pol += 1; run.out.count("policy near-twin siblings"); run.all_targets(c, false); }
     }
+    run.out.note("t_after policy near-twin siblings", t_start.elapsed().as_millis().to_string());
+
+    // repeated material.  The compiler memoises by policy VALUE (cache key (policy, sat_prob,
+    // dissat_prob)), so equal sub-policies in different positions / under different odds share
+    // cache entries.  (a) repeated keyless sub-policies, hashes and locks: legal, must compile to an
+    // equivalent sane output; (b) repeated KEYS: `is_valid` refuses them (DuplicatePubKeys) — a
+    // returned output would be judged like any other (duplicate keys make it insane).
+    let h0 = CA::Leaf(A::Hash(0, 0));
+    let o10 = CA::Leaf(A::Older(10));
+    let a100 = CA::Leaf(A::After(100));
+    let subs: Vec<CA> = vec![
+        h0.clone(), o10.clone(), a100.clone(),
+        CA::And(vec![h0.clone(), o10.clone()]),
+        CA::Thresh(2, vec![h0.clone(), o10.clone()]),
+        CA::And(vec![h0.clone(), CA::And(vec![o10.clone(), a100.clone()])]),
+        // keyless disjunctions have no non-malleable compilation: every entry point must refuse
+        CA::Or(vec![(1, h0.clone()), (3, o10.clone())]),
+    ];
+    let odds_sets: Vec<(usize, usize)> = if thorough { vec![(1, 1), (3, 1), (1, 9)] } else { vec![(1, 1), (1, 9)] };
+    let mut rep: Vec<CA> = vec![];
+    for x in &subs {
+        for &(wa, wb) in &odds_sets {
+            // the same sub-policy in both branches, guarded by different keys
+            rep.push(CA::Or(vec![(wa, CA::And(vec![key(0), x.clone()])), (wb, CA::And(vec![key(1), x.clone()]))]));
+            rep.push(CA::Or(vec![(wa, CA::And(vec![x.clone(), key(0)])), (wb, CA::And(vec![key(1), x.clone()]))]));
+            // as BOTH branches of one `or` with these odds, under a key
+            rep.push(CA::And(vec![key(0), CA::Or(vec![(wa, x.clone()), (wb, x.clone())])]));
+            // the same sub-policy at two depths (different sat / dissat probabilities)
+            rep.push(CA::Or(vec![(wa, CA::And(vec![key(0), x.clone()])), (wb, CA::And(vec![key(1), CA::Or(vec![(1, key(2)), (1, x.clone())])]))]));
+        }
+        rep.push(CA::And(vec![key(0), CA::And(vec![x.clone(), x.clone()])]));
+        rep.push(CA::Thresh(2, vec![key(0), x.clone(), x.clone()]));
+        rep.push(CA::Thresh(3, vec![key(0), key(1), x.clone(), x.clone()]));
+        rep.push(CA::Thresh(2, vec![CA::And(vec![key(0), x.clone()]), CA::And(vec![key(1), x.clone()]), CA::And(vec![key(2), x.clone()])]));
+        rep.push(CA::Thresh(1, vec![CA::And(vec![key(0), x.clone()]), CA::And(vec![key(1), x.clone()]), CA::And(vec![key(2), x.clone()])]));
+    }
+    // repeated keys
+    for (wa, wb) in [(1usize, 1usize), (3, 1)] {
+        rep.push(CA::Or(vec![(wa, key(0)), (wb, key(0))]));
+        rep.push(CA::Or(vec![(wa, CA::And(vec![key(0), o10.clone()])), (wb, CA::And(vec![key(0), h0.clone()]))]));
+        rep.push(CA::Or(vec![(wa, key(0)), (wb, CA::And(vec![key(0), key(1)]))]));
+        rep.push(CA::Or(vec![(wa, CA::Thresh(2, vec![key(0), key(1), key(2)])), (wb, CA::Thresh(2, vec![key(2), key(1), key(0)]))]));
+    }
+    rep.push(CA::And(vec![key(0), key(0)]));
+    rep.push(CA::Thresh(2, vec![key(0), key(0), key(1)]));
+    rep.push(CA::Thresh(2, vec![key(0), key(1), key(0)]));
+    rep.push(CA::And(vec![key(1), CA::Or(vec![(1, key(0)), (1, CA::And(vec![key(0), o10.clone()]))])]));
+    for (i, c) in rep.iter().enumerate() {
+        // quick tier: the full target matrix for every third case, the light one (Segwitv0, Tap,
+        // sh(wsh), tr entry points) for the others
+        if seen.insert(ca_wire(c)) { n_pol += 1; run.out.count("policy repeated sub-policies / keys"); run.all_targets(c, !thorough && i % 3 != 0); }
+    }
+    run.out.note("t_after policy repeated sub-policies / keys", t_start.elapsed().as_millis().to_string());
+
+    // cache-key sensitivity: sibling sub-policies that a sloppy comparison (of the hand-written
+    // Ord of Policy / Threshold, which keys the compiler's cache) would identify, at equal and
+    // unequal odds, each guarded by its own key so that the policy is legal.  A keyless
+    // sub-policy is only compilable (non-malleably) when it is a conjunction, so the pairs are
+    // conjunctions / n-of-n thresholds that share a prefix, a suffix, the length, the multiset of
+    // children in another order or nesting, or `and` vs `thresh(n,…)`.
+    let h1 = CA::Leaf(A::Hash(3, 1));
+    let near: Vec<(CA, CA)> = vec![
+        (CA::And(vec![h0.clone(), o10.clone()]), CA::And(vec![h0.clone(), a100.clone()])),
+        (CA::And(vec![h0.clone(), o10.clone()]), CA::And(vec![a100.clone(), o10.clone()])),
+        (CA::And(vec![h0.clone(), o10.clone()]), CA::And(vec![o10.clone(), h0.clone()])),
+        (CA::And(vec![h0.clone(), o10.clone()]), CA::Thresh(2, vec![h0.clone(), o10.clone()])),
+        (CA::And(vec![h0.clone(), o10.clone()]), CA::Thresh(2, vec![h0.clone(), a100.clone()])),
+        (CA::Thresh(2, vec![h0.clone(), o10.clone()]), CA::Thresh(2, vec![h0.clone(), a100.clone()])),
+        (CA::Thresh(2, vec![h0.clone(), o10.clone()]), CA::Thresh(2, vec![h1.clone(), o10.clone()])),
+        (CA::Thresh(3, vec![h0.clone(), o10.clone(), a100.clone()]), CA::Thresh(2, vec![h0.clone(), o10.clone()])),
+        (CA::Thresh(3, vec![h0.clone(), o10.clone(), a100.clone()]), CA::Thresh(3, vec![h0.clone(), o10.clone(), h1.clone()])),
+        (CA::And(vec![h0.clone(), CA::And(vec![o10.clone(), a100.clone()])]), CA::And(vec![CA::And(vec![h0.clone(), o10.clone()]), a100.clone()])),
+        (CA::And(vec![h0.clone(), CA::And(vec![o10.clone(), a100.clone()])]), CA::And(vec![h0.clone(), CA::And(vec![o10.clone(), h1.clone()])])),
+        (CA::Thresh(1, vec![h0.clone()]), CA::Thresh(1, vec![o10.clone()])),
+        (h0.clone(), CA::Thresh(1, vec![h0.clone()])),
+    ];
+    let mut near_pols: Vec<CA> = vec![];
+    for (x, y) in &near {
+        for &(wa, wb) in &odds_sets {
+            near_pols.push(CA::Or(vec![(wa, CA::And(vec![key(0), x.clone()])), (wb, CA::And(vec![key(1), y.clone()]))]));
+            if thorough || wa != wb { near_pols.push(CA::Or(vec![(wa, CA::And(vec![key(0), y.clone()])), (wb, CA::And(vec![key(1), x.clone()]))])); }
+        }
+        near_pols.push(CA::And(vec![key(0), CA::Or(vec![(1, x.clone()), (1, y.clone())])]));
+        near_pols.push(CA::Thresh(2, vec![key(0), CA::And(vec![key(1), x.clone()]), CA::And(vec![key(2), y.clone()])]));
+        near_pols.push(CA::Thresh(1, vec![CA::And(vec![key(1), x.clone()]), CA::And(vec![key(2), y.clone()])]));
+        near_pols.push(CA::And(vec![CA::And(vec![key(0), x.clone()]), CA::And(vec![key(1), y.clone()])]));
+    }
+    // k differing / key order differing over KEYS: the siblings must use different keys
+    near_pols.push(CA::Or(vec![(1, CA::Thresh(1, vec![key(0), key(1), key(2)])), (1, CA::Thresh(2, vec![key(3), key(4), key(5)]))]));
+    for k in 1..=3usize {
+        // same k and n, other keys: equal under a comparison that looks at the numbers only
+        near_pols.push(CA::Or(vec![(1, CA::Thresh(k, vec![key(0), key(1), key(2)])), (1, CA::Thresh(k, vec![key(3), key(4), key(5)]))]));
+        near_pols.push(CA::And(vec![CA::Thresh(k, vec![key(0), key(1), key(2)]), CA::Thresh(k, vec![key(3), key(4), key(5)])]));
+    }
+    near_pols.push(CA::Or(vec![(1, CA::And(vec![key(0), key(1)])), (1, CA::And(vec![key(2), key(3)]))]));
+    near_pols.push(CA::And(vec![CA::Or(vec![(1, key(0)), (1, key(1))]), CA::Or(vec![(1, key(2)), (1, key(3))])]));
+    near_pols.push(CA::Or(vec![(3, CA::Thresh(2, vec![key(0), key(1), key(2)])), (1, CA::Thresh(3, vec![key(3), key(4), key(5)]))]));
+    near_pols.push(CA::Or(vec![(1, CA::And(vec![key(0), key(1)])), (1, CA::Thresh(2, vec![key(2), key(3)]))]));
+    near_pols.push(CA::And(vec![CA::Or(vec![(3, key(0)), (1, key(1))]), CA::Or(vec![(1, key(2)), (3, key(3))])]));
+    for (i, c) in near_pols.iter().enumerate() {
+        if seen.insert(ca_wire(c)) { n_pol += 1; run.out.count("policy cache-key near-equal siblings"); run.all_targets(c, !thorough && i % 3 != 0); }
+    }
+    run.out.note("t_after policy cache-key near-equal siblings", t_start.elapsed().as_millis().to_string());
+
+    // taproot trees with many leaves: odds that give Huffman trees of depth >= 3 (halving chain,
+    // balanced, skewed), with a top-level key (extracted as internal key) and without one (the
+    // caller's unspendable key / NoInternalKey), leaves that are keys and leaves that are scripts
+    let guarded = |i: u32| CA::And(vec![key(i), CA::Leaf(A::Older(10 + i))]);
+    let chain = |leaf: &dyn Fn(u32) -> CA, n: u32, wa: usize, wb: usize| -> CA {
+        let mut acc = leaf(n - 1);
+        for i in (0..n - 1).rev() { acc = CA::Or(vec![(wa, leaf(i)), (wb, acc)]); }
+        acc
+    };
+    fn balanced(leaf: &dyn Fn(u32) -> CA, lo: u32, hi: u32, wa: usize, wb: usize) -> CA {
+        if hi - lo == 1 { return leaf(lo); }
+        let mid = (lo + hi) / 2;
+        CA::Or(vec![(wa, balanced(leaf, lo, mid, wa, wb)), (wb, balanced(leaf, mid, hi, wa, wb))])
+    }
+    let kleaf = |i: u32| key(i);
+    let mut trees: Vec<CA> = vec![];
+    for n in [5u32, 8] {
+        for (wa, wb) in [(1usize, 1usize), (3, 1), (1, 9)] {
+            trees.push(chain(&kleaf, n, wa, wb));
+            trees.push(chain(&guarded, n, wa, wb));
+            trees.push(balanced(&kleaf, 0, n, wa, wb));
+            trees.push(balanced(&guarded, 0, n, wa, wb));
+        }
+        trees.push(CA::Thresh(1, (0..n).map(kleaf).collect()));
+        trees.push(CA::Thresh(1, (0..n).map(guarded).collect()));
+        // one key among script leaves, in a likely and in an unlikely position
+        trees.push(CA::Or(vec![(9, key(0)), (1, chain(&|i| guarded(i + 1), n - 1, 1, 1))]));
+        trees.push(CA::Or(vec![(1, key(0)), (9, balanced(&|i| guarded(i + 1), 0, n - 1, 1, 1))]));
+        // two top-level keys with different odds: the likelier one must become the internal key
+        trees.push(CA::Or(vec![(1, key(0)), (1, CA::Or(vec![(9, key(1)), (1, balanced(&|i| guarded(i + 2), 0, n - 2, 1, 1))]))]));
+    }
+    // k-of-n at the top: compile_tr keeps it as one leaf, the private / native compilers expand it
+    trees.push(CA::Thresh(2, (0..4).map(kleaf).collect()));
+    trees.push(CA::Thresh(2, vec![key(0), key(1), guarded(2), guarded(3)]));
+    trees.push(CA::Or(vec![(1, key(0)), (1, CA::Thresh(2, vec![guarded(1), guarded(2), guarded(3)]))]));
+    run.tr_only = true;
+    for c in &trees {
+        if seen.insert(ca_wire(c)) { n_pol += 1; run.out.count("policy many-leaf taproot trees"); run.all_targets(c, false); }
+    }
+    run.out.note("t_after policy many-leaf taproot trees", t_start.elapsed().as_millis().to_string());
+    run.tr_only = false;
+    let t_gap = t_start.elapsed().as_millis();
+    run.out.note("time_until_exhaustive_part_ms", t_gap.to_string());
 
     // rare branches: with extreme odds the compiler trades witness size for script size, which
     // is where its special cases (thresh -> multi / multi_a, andor, or_i orderings) are actually
@@ -589,6 +781,7 @@ pub fn run(out: &mut Out, thorough: bool, seed: u64) {
     for c in &rare {
         if seen.insert(ca_wire(c)) { n_pol += 1; run.out.count("policy rare-branch odds"); run.all_targets(c, !thorough); }
     }
+    run.out.note("t_after policy rare-branch odds", t_start.elapsed().as_millis().to_string());
 
     // bounded-exhaustive: every shape of depth <= 1 over <= 4 leaves x every kind vector; depth 2
     // sampled (quick) / complete over the main kinds (thorough)
